@@ -7,6 +7,9 @@ func init() {
 		ID:    "C07",
 		Title: "Each @component use renders the component file with its own arguments and slots",
 		Rules: []string{
+			"R-KEEP: a node a parse function returns is stored, passed on or returned on every path of its caller to a successful return",
+			"R-SLOTIDX: the placeholder lookup of package ast, by cases: named and default placeholders are found at their positions (position 0 included), other names are not found",
+			"R-WALK: a recursive walk of the parsed tree (the evaluator; a collector of components or inserts) that reads one parser-filled statement-holding field of a node type reads all of them (@each has a body and an @else)",
 			"R-LAYOUT (alias) / R-EMIT: ~ expands to components/ only as the first character; evalProgram evaluates and emits every statement on every evaluation",
 			"R-DIRMODE: after each directive, followed by `(`, by another character and by a blank and `(`, the lexer is in the mode the directive's grammar asks for (case evaluation of directiveToken on real lexer states)",
 			"R-BODYENTRY: every caller of the block parser, evaluated by cases on an abstract parser (token types as named unknowns), enters it only on a token it has looked at and that is not END / ELSE / ELSE_IF — an empty body is an empty block, not the enclosing construct's closer",
@@ -21,6 +24,9 @@ func init() {
 		NotDecided:  "TODO",
 		Assumptions: trustedBase,
 		Run: func(m *Model, s *Sink) {
+			m.RunKeepParsed(s, "R-KEEP")     // every slot and body that was parsed is in the tree
+			m.RunSlotIndex(s, "R-SLOTIDX")   // a slot body goes to the placeholder of its name wherever it stands (also as the first statement)
+			m.RunWalk(s, "R-WALK")           // a walk that descends into a construct descends into all of it
 			m.RunEmit(s, "R-EMIT")           // every statement of a component program is evaluated for every use
 			m.RunLayout(s, "R-LAYOUT")       // ~ expands only as the first character of a component name
 			m.RunTextSkip(s, "R-TEXTKEEP")   // text between slots is whitespace, or an error
